@@ -89,6 +89,8 @@ def strip(n):
             n = n["expr"]
         elif k == "mcall" and n.get("m") in ("clone", "as_ref", "as_str", "to_string", "into", "as_mut", "borrow") and not n.get("args"):
             n = n["recv"]
+        elif k == "call" and last(n.get("callee") or "") == "clone" and len(n.get("args", [])) == 1 and not n.get("ctor"):
+            n = n["args"][0]   # Rc::clone(&x)
         else:
             break
     return n
@@ -882,23 +884,40 @@ def unlet(n, env=None, _mut=None):
     return {k: unlet(v, env, _mut) for k, v in n.items()}
 
 
-def beta(n):
-    """copy of n with calls of closures reduced (`(|a, b| a + b)(x, y)` becomes `x + y`) and calls through a path to an inherent
-    integer method written as a function value (`i64::wrapping_add(a, b)`) rewritten as the method call `a.wrapping_add(b)` —
-    used after inline_helpers + unlet so that an operation handed to a shared helper as a function value reads like the
-    operation written in place"""
+def beta(n, env=None):
+    """copy of n with calls of closures reduced (`(|a, b| a + b)(x, y)` becomes `x + y`, also when the closure was first bound
+    to an immutable local: `let f = |c| ..; f(self)`) and calls through a path to an inherent integer method written as a
+    function value (`i64::wrapping_add(a, b)`) rewritten as the method call `a.wrapping_add(b)` — used after inline_helpers
+    so that an operation handed to a shared helper as a closure or function value reads like the operation written in place"""
     import re as _re
+    env = env or {}
     if isinstance(n, list):
-        return [beta(x) for x in n]
+        return [beta(x, env) for x in n]
     if not isinstance(n, dict):
         return n
-    n = {k: beta(v) for k, v in n.items()}
+    if n.get("k") == "block":
+        env2 = dict(env)
+        stmts = []
+        for st in n.get("stmts", []):
+            st2 = beta(st, env2)
+            pat = st2.get("pat", {}) if st2.get("k") == "let" else {}
+            if pat.get("k") == "bind" and st2.get("init") is not None and strip(st2["init"]).get("k") == "closure" and "Mut" not in str(pat.get("mode", "")):
+                env2[pat["id"]] = strip(st2["init"])
+            stmts.append(st2)
+        out = dict(n)
+        out["stmts"] = stmts
+        if n.get("expr") is not None:
+            out["expr"] = beta(n["expr"], env2)
+        return out
+    n = {k: beta(v, env) for k, v in n.items()}
     if n.get("k") == "call" and isinstance(n.get("f"), dict):
         f = strip(n["f"])
+        if local_id(f) in env:
+            f = env[local_id(f)]
         args = n.get("args", [])
         if f.get("k") == "closure" and len(f.get("params", [])) == len(args) and all(p.get("k") == "bind" and "sub" not in p for p in f["params"]):
-            env = {p["id"]: a for p, a in zip(f["params"], args)}
-            return beta(_subst(f["body"], env))
+            sub = {p["id"]: a for p, a in zip(f["params"], args)}
+            return beta(_subst(f["body"], sub), env)
         path = (f.get("res", {}) or {}).get("path") or n.get("callee") or ""
         m = _re.match(r"^core::num::<impl ([iu](?:8|16|32|64|128|size))>::(\w+)$", path)
         if m and f.get("k") == "path" and args:
@@ -970,3 +989,11 @@ def split_tuple_lets(n):
                 out.append(st)
         n2["stmts"] = out
     return n2
+
+
+def normal(F, node, keep=(), max_size=400):
+    """the normal form most data-flow rules read: helpers of the repository inlined (except those named in `keep`), closures
+    and function values handed to helpers applied, named single-assignment intermediates substituted, `let (a, b) = (x, y)`
+    split"""
+    skip = (lambda c: last(c) in keep) if keep else ()
+    return beta(unlet(split_tuple_lets(inline_helpers(F, node, max_size=max_size, skip=skip))))
